@@ -214,10 +214,72 @@ func FieldRef(v ssa.Value) (base ssa.Value, path []string, ok bool) {
 			}
 			path = append([]string{st.Field(x.Field).Name()}, path...)
 			v = x.X
+		case *ssa.Alloc:
+			// a local snapshot `x := a.b` of a struct that is only read
+			// afterwards: continue at the copied value
+			if src := snapshotSource(x); src != nil && len(path) > 0 {
+				v = src
+				continue
+			}
+			return v, path, len(path) > 0
 		default:
 			return v, path, len(path) > 0
 		}
 	}
+}
+
+// snapshotSource: a is a function-local struct variable that is written once
+// as a whole (`*a = v`) and otherwise only read through field selections; the
+// value it was copied from is returned (nil otherwise).
+func snapshotSource(a *ssa.Alloc) ssa.Value {
+	if a.Heap || a.Referrers() == nil {
+		return nil
+	}
+	var src ssa.Value
+	var readOnly func(v ssa.Value) bool
+	readOnly = func(v ssa.Value) bool {
+		refs := v.Referrers()
+		if refs == nil {
+			return false
+		}
+		for _, ref := range *refs {
+			switch r := ref.(type) {
+			case *ssa.UnOp:
+				if r.Op != token.MUL {
+					return false
+				}
+			case *ssa.FieldAddr:
+				if !readOnly(r) {
+					return false
+				}
+			case *ssa.Store:
+				if r.Addr != v || v != ssa.Value(a) || src != nil {
+					return false
+				}
+				src = r.Val
+			case *ssa.DebugRef:
+			default:
+				return false
+			}
+		}
+		return true
+	}
+	if !readOnly(a) || src == nil {
+		return nil
+	}
+	if _, isStruct := src.Type().Underlying().(*types.Struct); !isStruct {
+		return nil
+	}
+	// the copied value must itself be a field selection (a.b), not e.g. a call result or parameter spill
+	if u, ok := src.(*ssa.UnOp); ok && u.Op == token.MUL {
+		if _, ok := u.X.(*ssa.FieldAddr); ok {
+			return src
+		}
+	}
+	if _, ok := src.(*ssa.Field); ok {
+		return src
+	}
+	return nil
 }
 
 func derefStruct(t types.Type) *types.Struct {
